@@ -30,7 +30,7 @@ ASSUMPTIONS = ['sources within 0.5 deg of CRVAL so that the pixel-space model an
                'forced rms = 1e-3 min|peak|, bkg = 0', 'catalogue psf columns equal the image beam (otherwise the finder '
                'legitimately rescales the sizes)', 'for file input the truth is the catalogue as read back from the file']
 MIN_REACH = {'source_finder:SourceFinder.priorized_fit_islands': 1, 'source_finder:SourceFinder._refit_islands': 1}
-MIN_COUNTERS = {'runs_ratio1_with_catalogue_psf_differing_from_beam': 2, 'runs_with_repeated_labels_inside_an_island': 1,
+MIN_COUNTERS = {'runs_with_sources_narrower_than_the_psf': 2, 'runs_ratio1_with_catalogue_psf_differing_from_beam': 2, 'runs_with_repeated_labels_inside_an_island': 1,
                 'outputs_judged': 100, 'cutout_width_odd': 10, 'cutout_width_even': 10, 'interference_pairs': 3,
                 'runs_over_20_groups': 2, 'file_inputs': 3}
 BATCHES_PER_JOB = 4
@@ -151,6 +151,21 @@ def cases(seed, tier):
         c['psf_scale'] = float(rng.choice([0.7, 0.85, 1.1, 1.4]))
         c['form'] = str(rng.choice(['objects', 'csv']))
         c['stage'] = 1 + i % 3
+        out.append(c)
+    # sources narrower than the image psf (a catalogue from a sharper image, used as it is): round-ish, 0.5-0.8 of the psf
+    n_sm = 6 if tier == 'quick' else 60
+    for i in range(n_sm):
+        c = gen_case(rng, int(rng.integers(2, 10)), tier)
+        c['ratio'] = 1 if i % 2 else None
+        c['psf_columns'] = True
+        c['form'] = 'objects'
+        c['stage'] = 1 + i % 3
+        bmin_as = c['beam'][1] * 3600
+        for q in c['sources']:
+            if rng.random() < 0.6:
+                q['b'] = bmin_as * float(rng.uniform(0.68, 0.8))     # (below ~2 pixels FWHM the cut-out holds fewer pixels than parameters)
+                q['a'] = q['b'] * float(rng.uniform(1.0, 1.2))
+        c['small_sources'] = True
         out.append(c)
     # hand-made catalogues: the island number is a blend id and `source` is left at 0 (labels repeat inside an island),
     # fitted with the catalogue's own grouping (regroup off)
@@ -455,6 +470,8 @@ def run(case):
         o.see('form', case['form'])
         if case.get('psf_scale', 1.0) != 1.0:
             o.count('runs_ratio1_with_catalogue_psf_differing_from_beam')
+        if case.get('small_sources'):
+            o.count('runs_with_sources_narrower_than_the_psf')
         if case.get('dup_labels') and len(set((q.island, q.source) for q in objs)) < len(objs):
             o.count('runs_with_repeated_labels_inside_an_island')
         judge_outputs(o, ctx, case, outs, truth, z, acc)
